@@ -25,6 +25,8 @@ type Ref struct {
 //	lkp   table lookup Fn(SArg|IArg, Lang)
 //	redec decode Vec again on the receiver of slot Obj (re-used receiver)
 //	set   assign exported field number IArg of object Obj: the value of the same field of Donor, or the invalid value
+//	inner keep only the embedded Field ("Base"/"Temporal") object of slot Obj, as slot Dst; the owner becomes unreachable
+//	gc    force two garbage collections and let finalizers run
 //	twin  (C15) rebuild object Obj from scratch (same decodes and assignments, no queries) and compare all observations
 //	flt   (C12) reset exported field Field of object Obj to its zero (unknown/invalid) value
 //	nils  (C12) all observers on the typed nil receivers of all six kinds
